@@ -21,3 +21,31 @@ theorem sqrtSpec_nt (p : ℕ) (hp : p.Prime) (hp2 : p ≠ 2) : SqrtSpec NT.squar
   exact hrr
 
 end Ecdsa
+
+namespace Ecdsa
+
+/-- the hand-written `Ecdsa.inverseMod` (used by the ECDSA model) returns exactly what the model of
+`numbertheory.inverse_mod` whose text is regenerated from the source (`NT.inverseMod`, C15) returns — every `a`,
+every positive modulus, success and `ValueError` alike -/
+theorem inverseMod_eq_nt (a m : ℤ) (hm : 1 ≤ m) : inverseMod a m = NT.inverseMod a m := by
+  by_cases ha : a = 0
+  · subst ha; rw [inverseMod_zero, (C15.inverse_mod_other_inputs 0 m).1]
+  by_cases hg : Int.gcd a m = 1
+  · obtain ⟨c, hc, c0, c1, hcm⟩ := inverseMod_ok a m (by omega) ha hg
+    obtain ⟨i, hi, i0, i1, him⟩ := C15.inverse_mod_spec a m hm hg
+    rw [hc, hi]
+    congr 1
+    have h1 : a * c ≡ a * i [ZMOD m] := hcm.trans (show a * i ≡ 1 [ZMOD m] from him).symm
+    -- cancel the invertible a
+    have h2 : c * (a * c) ≡ c * (a * i) [ZMOD m] := h1.mul_left c
+    have h3 : c * (a * c) ≡ c [ZMOD m] := by
+      have := hcm.mul_left c; rwa [mul_one] at this
+    have h4 : c * (a * i) ≡ i [ZMOD m] := by
+      have : c * (a * i) = (a * c) * i := by ring
+      rw [this]; have := hcm.mul_right i; rwa [one_mul] at this
+    have h5 : c ≡ i [ZMOD m] := h3.symm.trans (h2.trans h4)
+    have h6 : c % m = i % m := h5
+    rwa [Int.emod_eq_of_lt c0 c1, Int.emod_eq_of_lt i0 i1] at h6
+  · rw [inverseMod_err a m (by omega) ha hg, ((C15.inverse_mod_other_inputs a m).2.2.1 ha (by omega) hg)]
+
+end Ecdsa
